@@ -155,13 +155,18 @@ def runE2E (c obs : String) : String × String × Bool :=
         (s!"ok rows={a},{100 * lenOf m + lenOf xs}", (encodeArgs [(.other, pa)]).isSome)
       | ["E1", _] => ("ok rows=7,0", (encodeArgs [(.other, .unenc "func")]).isSome)
       | ["E2", _] => ("ok rows=3,0", (encodeArgs [(.other, .unenc "chan")]).isSome)
+      -- an argument the driver encodes but a worker cannot decode (payload version ≠ 1)
+      | ["E3", v] => let n := (v.drop 4).toString; (s!"ok rows={n},0", n == "1")
       | _ => ("bad-case", true)
     let model := if bm && !encodableArgs then "error" else want
     let oracle :=
       if obs.startsWith "hang" || obs.startsWith "CRASH" || obs.startsWith "HANG" || (obs.splitOn "PANIC").length > 1 then
         s!"an invocation did not end with a result or an error: {obs.take 120}"
       else if bm && !encodableArgs then
-        (if obs.startsWith "err:" || obs.startsWith "fatal:" then "ok" else "unencodable-argument-not-reported-as-error")
+        (if !(obs.startsWith "err:" || obs.startsWith "fatal:") then "unencodable-argument-not-reported-as-error"
+         else if (obs.splitOn "consecutive attempts").length > 1 then
+           "an argument problem was retried as a lost task instead of failing fast with its cause"
+         else "ok")
       else if obs == want then "ok" else s!"the invocation built a different slice: {obs.take 100}, expected {want}"
     (model, oracle, oracle == "ok")
   | _ => ("bad-case", "bad-case", false)
